@@ -16,7 +16,7 @@ func init() {
 		Technique:   "taint-to-size-use enumeration over package asserts with guarded-sink reachability (two-sided bound) on the SSA CFG; guarded-sink on the stream decoder's size limits; who-may-write of the limit fields",
 		Explanation: "Structural necessary conditions for 'malformed input is rejected with an error and never crashes' (the round-trip clause is not decided): (R1) in the stream decoder every read is size-limited: Decoder.Decode reaches its body allocation and readExact(length) only across length <= the per-type or default maximum, calls readUntil only with the decoder's maxHeadersSize/maxSigSize, readUntil cannot grow its window again without passing size <= maxSize, and the three limit fields are written only by the two constructors, from the Max*Size constants; (R2) every integer parsed from input in package asserts (checkInt*/atoi/strconv) that reaches an allocation size, a slice bound, an index or a read size is bounded from below and from above on every path to that use; (R3) in Decode (non-stream) every slice of the input whose bound comes from bytes.Index/LastIndex is reached only across index != -1; (R4) Encode writes content, the same separator Decode splits on, then the signature; (R5) in the input parsers (headers.go, asserts.go) a constant-index access of a string or slice is reached only across a test that it is long enough, and a buffer returned by the stream decoder's readUntil/readExact (valid only until the next read) is never used after a later read.",
 		NotDecided:  "round-trip equality (value-level); absence of every panic or hang inside parseHeaders and the per-type assemblers (no sound static argument in reach: the Go compiler's list of unproven bounds checks for the package is the honest measure of what R1-R3 leave open); nesting depth of header values.",
-		Run:         func(c *Ctx) { runC20(c); runC20x(c) },
+		Run:         func(c *Ctx) { runC20(c); runC20x(c); runC20z(c) },
 	})
 }
 
